@@ -911,6 +911,8 @@ func (x *Exec) mapLen(st *State, m MapV) *Term {
 		return IntLit(int64(len(m.Const.Keys)))
 	}
 	ks := mapKeyStr(m)
+	// len(m) reads the whole map: the map's guard applies (a read)
+	x.guardCheck(st, ks+"#card", m.ID, false)
 	l := Select(st.heapArr(ks+"#card", SInt), m.ID)
 	st.assumeRaw(Le(IntLit(0), l))
 	return l
